@@ -48,7 +48,12 @@ def r19_1(ctx):
                 r.ob("shared:%s->%s" % (f.key.rsplit("::", 2)[-2] + "::" + f.name, fs.name), len(direct) == 1, f.site, "calls the shared result function %s %d time(s)" % (shared.rsplit("::", 1)[1], len(direct)))
                 # and returns its result unchanged
                 rets = {p.end[1] for p in Sym(f, copies=False).paths() if p.end[0] == "ret"}
-                ok = all(e[0] == "call" and e[1] == shared for e in rets) and bool(rets)
+                def is_shared(e):
+                    # the call itself, or the output structure built around nothing but its result
+                    if e[0] == "call" and e[1] == shared:
+                        return True
+                    return e[0] == "agg" and bool(e[3]) and all((v[0] == "call" and v[1] == shared) or v[0] == "const" for _, v in e[3]) and any(v[0] == "call" for _, v in e[3])
+                ok = all(is_shared(e) for e in rets) and bool(rets)
                 r.ob("shared:%s:returns-it" % (f.key.rsplit("::", 2)[-2] + "::" + f.name), ok, f.site, "returns the shared function's result unchanged")
     ctx.run_rule("R19.1", "project and standalone entry points share one result function", body, floor=16)
 
